@@ -1,6 +1,7 @@
 """C09: tooth force and stresses.  Tie = coq/Gears.v (binary64, regenerated tables, libm as oracle tables) vs gearpy's
 compute_tangential_force / compute_bending_stress / compute_contact_stress / lewis_factor, bit for bit; search = the documented
 formulas in SI on the implementation."""
+import copy
 import json
 import math
 import random
@@ -71,7 +72,19 @@ def gen_pair(rng):
         wheel = dict(kind='wheel', z=rng.randint(10, 80), helix=hh, pa=paq, opt=opt(rng, 'wheel', full))
         a, b = (worm, wheel) if kind == 'wormwheel' else (wheel, worm)
     tq = lambda: scen.in_unit(rng, 'Torque', rng.choice([0.0, rng.uniform(-50, 50), rng.uniform(-1, 1) * 1e-3]))  # noqa
-    return dict(pair=kind, a=a, b=b, torques=[[tq(), tq()], [tq(), tq()]], mated=rng.random() < 0.93, f=rng.uniform(0.01, 0.2))
+    sc = dict(pair=kind, a=a, b=b, torques=[[tq(), tq()], [tq(), tq()]], mated=rng.random() < 0.93, f=rng.uniform(0.01, 0.2))
+    if sc['mated'] and rng.random() < 0.35:
+        # the same gear object a is mated again, with another gear c, after its stresses have been evaluated once (a design sweep):
+        # c takes b's place, or (spur / helical) a becomes the slave of c
+        c = copy.deepcopy(b)
+        c['z'] = rng.randint(1, 4) if c['kind'] == 'worm' else rng.randint(10, 300)
+        c['opt'] = opt(rng, c['kind'], full)
+        if kind in ('spur', 'helical') and 'module' in a['opt'] and 'module' in c['opt']:
+            c['opt']['module'] = a['opt']['module']
+        sc['c'] = c
+        sc['c_is_master'] = kind in ('spur', 'helical') and rng.random() < 0.5
+        sc['torques2'] = [[tq(), tq()], [tq(), tq()]]
+    return sc
 
 
 def build(e):
@@ -168,11 +181,37 @@ def run_pair(sc):
         except Exception:  # noqa
             return []
     out = []
-    for g, e, mate, role, (lt, dt) in ((A, sc['a'], sc['b'], 'RMaster', sc['torques'][0]), (B, sc['b'], sc['a'], 'RSlave', sc['torques'][1])):
+    stages = [((A, sc['a'], sc['b'], 'RMaster', sc['torques'][0]), (B, sc['b'], sc['a'], 'RSlave', sc['torques'][1]))]
+    if 'c' in sc:
+        stages.append('remate')
+    for stage in stages:
+        if stage == 'remate':
+            try:
+                C = build(sc['c'])
+                oracle_for(sc['c'])
+                if sc['pair'] in ('spur', 'helical'):
+                    if sc['c_is_master']:
+                        add_gear_mating(master=C, slave=A, efficiency=0.9)
+                    else:
+                        add_gear_mating(master=A, slave=C, efficiency=0.9)
+                else:
+                    add_worm_gear_mating(master=A, slave=C, friction_coefficient=sc['f'])
+            except Exception:  # noqa
+                break
+            ra, rc = ('RSlave', 'RMaster') if sc['c_is_master'] else ('RMaster', 'RSlave')
+            stage = ((A, sc['a'], sc['c'], ra, sc['torques2'][0]), (C, sc['c'], sc['a'], rc, sc['torques2'][1]))
+        out += eval_stage(sc, stage)
+    return out
+
+
+def eval_stage(sc, stage):
+    out = []
+    for g, e, mate, role, (lt, dt) in stage:
         r = f'(Some {role})' if sc['mated'] else 'None'
         m = f'(Some {cgear(mate)})' if sc['mated'] else 'None'
         g.load_torque, g.driving_torque = scen.mkq(lt), scen.mkq(dt)
-        rec = dict(elem=e, mate=mate if sc['mated'] else None, role=role if sc['mated'] else None, ltq=lt, dtq=dt)
+        rec = dict(elem=e, mate=mate if sc['mated'] else None, role=role if sc['mated'] else None, ltq=lt, dtq=dt,
+                   history=sc if 'c' in sc else None)       # with a re-mating, the whole declaration history is the replay
         if e['kind'] != 'worm':
             lw = outcome(lambda: g.lewis_factor)
             if lw[0] == 'E' and lw[1] == 'AttributeError':
